@@ -370,12 +370,15 @@ def asmJmp (h : Holder) (c : Cur) (id : Nat) : Holder × Cur × String :=
         let h := (h.write c.sec c.off [233, 0, 0, 0, 0]).addFixup id { sec := c.sec, off := c.off + 1, rel := -4, size := 4, reloc := none }
         (h, done { c with off := c.off + 5 }, "ok")
 
-/-- `BaseAssembler::embed_label` -/
-def asmElabel (h : Holder) (c : Cur) (id size : Nat) : Holder × Cur × String :=
+/-- `data_size == 0` means "register size" -/
+def elabelSize (arch : Option Arch) (size : Nat) : Nat :=
+  if size == 0 then (if arch == some .x86 then 4 else 8) else size
+
+/-- `BaseAssembler::embed_label` once the data size is known -/
+def asmElabelSz (h : Holder) (c : Cur) (id size : Nat) : Holder × Cur × String :=
   match h.labels[id]? with
   | none => (h, c, "InvalidLabel")
   | some le =>
-    let size := if size == 0 then (if h.arch == some .x86 then 4 else 8) else size
     if !(size == 1 || size == 2 || size == 4 || size == 8) then (h, c, "InvalidOperandSize")
     else
       let rid := h.relocs.length
@@ -386,6 +389,10 @@ def asmElabel (h : Holder) (c : Cur) (id size : Nat) : Holder × Cur × String :
         | some (s, o) => { h with relocs := h.relocs ++ [{ re with tgtSec := some s, payload := o }] }
         | none => ({ h with relocs := h.relocs ++ [re] }).addFixup id { sec := c.sec, off := c.off, rel := 0, size := size, reloc := some rid }
       (h.write c.sec c.off (List.replicate size 0), { c with off := c.off + size }, "ok")
+
+/-- `BaseAssembler::embed_label` -/
+def asmElabel (h : Holder) (c : Cur) (id size : Nat) : Holder × Cur × String :=
+  asmElabelSz h c id (elabelSize h.arch size)
 
 /-- `BaseAssembler::section` for a valid section -/
 def asmSwitch (h : Holder) (c : Cur) (s : Nat) : Holder × Cur × String :=
@@ -439,19 +446,22 @@ def Emitter.bldSwitch (e : Emitter) (s : Nat) : Emitter :=
       | none => e.nodes.length - 1
     { e with cursor := some cur, dirty := false }
 
+/-- the Assembler call a Builder node is serialised to (`BaseBuilder::serialize_to`, one loop iteration) -/
+def nodeGen (n : Node) (h : Holder) (c : Cur) : Holder × Cur × String :=
+  match n with
+  | .section s => asmSwitch h c s
+  | .label id => asmBind h c id
+  | .data bs => asmRaw h c bs
+  | .jmp id o => asmJmp h { c with opts := o } id
+  | .elabel id sz => asmElabel h c id sz
+
 /-- `BaseBuilder::serialize_to(&assembler)`: stops at the first error -/
 def serialize (h : Holder) (c : Cur) : List Node → Holder × Cur × String
   | [] => (h, c, "ok")
   | n :: r =>
-    let c := { c with cmt := false }            -- `dst->set_inline_comment(node->inline_comment())` (never set here)
-    let (h, c, err) :=
-      match n with
-      | .section s => asmSwitch h c s
-      | .label id => asmBind h c id
-      | .data bs => asmRaw h c bs
-      | .jmp id o => asmJmp h { c with opts := o } id
-      | .elabel id sz => asmElabel h c id sz
-    if err == "ok" then serialize h c r else (h, c, err)
+    -- `dst->set_inline_comment(node->inline_comment())` (never set here)
+    let res := nodeGen n h { c with cmt := false }
+    if res.2.2 == "ok" then serialize res.1 res.2.1 r else res
 
 /-! ### operations of the protocol -/
 
